@@ -298,7 +298,27 @@ fn parse_err_kind(msg: &str) -> String {
     }
 }
 
+/// The error outcomes of the YAML-stream / TOML writers under the model's short names.
+fn short_err(r: String) -> String {
+    let w: Vec<&str> = r.split(' ').collect();
+    if w.len() == 4 && w[0] == "err" && w[1] == "eval" {
+        let detail = hex_dec(w[3]).and_then(|b| String::from_utf8(b).ok()).unwrap_or_default();
+        if w[2] == "Other" && detail == "cannot manifest null in TOML" {
+            return "err null".into();
+        }
+        if w[2] == "InvalidStdFuncArgType" && detail.starts_with("manifestTomlEx/0/") {
+            return "err notobject".into();
+        }
+        if w[2] == "InvalidStdFuncArgType" && detail.starts_with("manifestYamlStream/0/") {
+            return "err notarray".into();
+        }
+    }
+    r
+}
+
 /// `json manifest <fmt> <value>` | `json parse <hextext>` | `json escape <hexstr>` |
+/// `json yamldoc <flags> <value>` | `json yamlstream <flags> <value>` | `json toml <hexindent> <value>` |
+/// `json toml0 <value>` |
 /// `json yamlplain <hexstr>` | `json tomlplain <hexstr>` | `json tomlkey <hexstr>` |
 /// `json reparse <fmt> <value>` (implementation's own parser on its own output)
 pub fn handle(args: &[&str]) -> Option<String> {
@@ -368,6 +388,7 @@ pub fn handle(args: &[&str]) -> Option<String> {
                         Out::Str,
                     )
                 }
+                ["YS0"] => (format!("std.manifestYamlStream({})", v), Out::Str),
                 ["O", i] => {
                     strs.push(("fi".into(), String::from_utf8(hex_dec(i)?).ok()?));
                     (format!("std.manifestTomlEx({}, std.extVar(\"fi\"))", v), Out::Str)
@@ -388,6 +409,27 @@ pub fn handle(args: &[&str]) -> Option<String> {
                 return Some(run(&src, &sb.nums, &strs, Out::Wire));
             }
             Some(run(&src, &sb.nums, &strs, out))
+        }
+        // ---- work package H: the YAML / TOML writers against `RsjModel/Yaml.lean`, `RsjModel/Toml.lean`
+        // (model side: ops `yaml yamldoc|yamlstream`, `toml toml|toml0`, same arguments)
+        ["yamldoc", flags, val] => {
+            // flags = `ab` (indent_array_in_object, quote_keys) or `-` for the defaults
+            let fmt = if *flags == "-" { "Y0".to_string() } else { format!("Y:{}", flags) };
+            handle(&["manifest", &fmt, val])
+        }
+        ["yamlstream", flags, val] => {
+            // flags = `abc` (indent_array_in_object, c_document_end, quote_keys) or `-` for the defaults
+            let fmt = if *flags == "-" { "YS0".to_string() } else { format!("YS:{}", flags) };
+            let r = handle(&["manifest", &fmt, val])?;
+            Some(short_err(r))
+        }
+        ["toml", ind, val] => {
+            let r = handle(&["manifest", &format!("O:{}", ind), val])?;
+            Some(short_err(r))
+        }
+        ["toml0", val] => {
+            let r = handle(&["manifest", "O0", val])?;
+            Some(short_err(r))
         }
         ["parse", h] => {
             let text = String::from_utf8(hex_dec(h)?).ok()?;
